@@ -47,6 +47,12 @@ RULES = [
     # condition reads neither field nor source, so two transactions that differ only there still get their own tag values
     {"name": "TagWs", "match": "amount > 0 or amount < 0", "tags": "{field.memo}, {field.type}, {source}"},
     # dynamic tags whose expression itself contains braces (counted quantifiers)
+    # two different special tags reach one transaction from different rules (all of them stay on it)
+    {"name": "TagXfer", "match": 'contains("NETFLIX")', "tags": "transfer"},
+    {"name": "TagInv", "match": 'contains("NETFLIX") or contains("UBER")', "tags": "investment, Income"},
+    # := inside a condition binds a name for that expression only: a later rule's {wn} tag cannot see it
+    {"name": "Walrus", "match": '(wn := extract("(\\d+)")) != ""', "category": "WalrusCat", "tags": "w"},
+    {"name": "TagWn", "match": 'contains("NETFLIX") or contains("UBER")', "tags": "{wn}, wtag"},
     {"name": "TagBrace", "match": 'contains("NETFLIX") or contains("TRIP")', "tags": '{extract("(\\d{3})")}, {extract("TRIP (\\d{2})")}, {extract(field.memo, "REF (\\d{1,3})")}'},
 ]
 CSVROWS = [
